@@ -422,7 +422,7 @@ func (x *Exec) convert(st *State, v Value, t types.Type, pos token.Pos) Value {
 		}
 		return Value{K: KInt, T: t, S: wrapInt(v.S, bits, signed)}
 	case v.K == KBV8 && nk == KInt:
-		return Value{K: KInt, T: t, S: mkB2I(v.S)}
+		return Value{K: KInt, T: t, S: x.b2iNamed(st, v.S)}
 	case v.K == KInt && nk == KBV8:
 		return Value{K: KBV8, T: t, S: x.i2b(st, v.S)}
 	case v.K == KBV8 && nk == KBV8:
